@@ -638,7 +638,9 @@ func newMemEv(c *TrieCase) Ev {
 			ptrs[i] = &bools[i]
 		}
 	}
-	opt := trie.Opt{DedupValue: ptrs[0], InnerPrefix: ptrs[1], LeafPrefix: ptrs[2], Complete: ptrs[3]}
+	// the options travel in a caller-owned slice spread into the variadic parameter: the
+	// callee then sees the caller's own Opt struct, not a temporary copy
+	opts := []trie.Opt{{DedupValue: ptrs[0], InnerPrefix: ptrs[1], LeafPrefix: ptrs[2], Complete: ptrs[3]}}
 	before := append([]bool{}, bools...)
 	pan := ""
 	func() {
@@ -647,15 +649,16 @@ func newMemEv(c *TrieCase) Ev {
 				pan = fmt.Sprint(r)
 			}
 		}()
-		trie.NewSlimTrie(c.encoder(), keys, vals, opt)
+		trie.NewSlimTrie(c.encoder(), keys, vals, opts...)
 	}()
+	opt := opts[0]
 	keysSame := len(keys) == len(c.Keys)
 	for i := range keys {
 		if i < len(c.Keys) && keys[i] != c.Keys[i] {
 			keysSame = false
 		}
 	}
-	ptrSame := opt.DedupValue == ptrs[0] && opt.InnerPrefix == ptrs[1] && opt.LeafPrefix == ptrs[2] && opt.Complete == ptrs[3]
+	ptrSame := len(opts) == 1 && opt.DedupValue == ptrs[0] && opt.InnerPrefix == ptrs[1] && opt.LeafPrefix == ptrs[2] && opt.Complete == ptrs[3]
 	valSame := true
 	for i := range bools {
 		if bools[i] != before[i] {
